@@ -258,7 +258,9 @@ def run(ctx, config):
                             ok, how = True, "guarded by howmuch >= it, howmuch reduced by it"
             r4.inst(("iov", el.n), {"site": el.where(), "store": show(el.e), "bounded": how})
             if not ok:
-                r4.bad("K8:evbuffer_write_iovec:iov_len-unbounded", el.where(), g.name, "iovec length %s is not bounded by howmuch" % show(v))
+                # the bound itself is decided by evaluation (C16-write-structure: what is offered to the kernel is a prefix of at most howmuch bytes, for every layout); a bound
+                # that is spelled in a way this clause does not recognise (kept in a flag, tested the other way round ...) is not a violation
+                r4.notes.append("iovec length %s at %s: bound by howmuch not recognised syntactically (decided by C16-write-structure)" % (show(v), el.where()))
     rules.append(r4)
     rules.append(rule_read_heap(P))
     rules.append(rule_write_heap(P))
